@@ -180,6 +180,7 @@ def run(chk):
             raise MachineryError(f"binding self-test failed: {got}")
     from checks import c08_e2e
     c08_e2e.run(chk)
+    mechanism_drift(chk, rng)
     chk.assumptions += ["virtual-time loop and scripted futures stand in for the thread pool; the retry wrapper is the real "
                         "threads_create_futures_func wrapper (tenacity)",
                         "processes executor has no retry wrapper of its own; covered end-to-end only"]
@@ -187,3 +188,89 @@ def run(chk):
 
 if __name__ == "__main__":
     sys.exit(main(run, "C08"))
+
+
+# ------------------------------------------------------------------------------------------------ mechanism-level drift
+def to_mechanism_trace(sc, res):
+    """Events for spec/MapUnorderedTrace.tla (initial batch submissions are the spec's Init)."""
+    evs = []
+    first = sc.n if sc.batch_size is None else min(sc.batch_size, sc.n)
+    nsub = 0
+    pend_refill = 0
+    inp_of = {}
+    for e in res["trace"]:
+        if e["ev"] == "Submit":
+            nsub += 1
+            inp_of[e["f"]] = e["i"]
+            if nsub <= first:
+                continue
+            if e["backup"]:
+                if pend_refill:
+                    evs.append(dict(ev="refill", f=0, g=0, n=pend_refill, ok=False))
+                    pend_refill = 0
+                orig = max(f for f, i in inp_of.items() if i == e["i"] and f != e["f"])
+                evs.append(dict(ev="launch", f=orig, g=e["f"], n=0, ok=False))
+            else:
+                pend_refill += 1
+            continue
+        if pend_refill:
+            evs.append(dict(ev="refill", f=0, g=0, n=pend_refill, ok=False))
+            pend_refill = 0
+        if e["ev"] == "Attempt":
+            evs.append(dict(ev="att", f=e["f"], g=0, n=0, ok=bool(e["ok"])))
+        elif e["ev"] == "Visit":
+            evs.append(dict(ev="visit", f=e["f"], g=0, n=0, ok=False))
+        elif e["ev"] == "Raise":
+            evs.append(dict(ev="raise", f=0, g=0, n=0, ok=False))
+        elif e["ev"] == "Return":
+            evs.append(dict(ev="return", f=0, g=0, n=0, ok=False))
+    return evs
+
+
+def mechanism_drift(chk, rng):
+    """Does the code still follow MapUnordered.tla?  (DRIFT in the evidence, never a violation.)"""
+    import os
+    import re
+    import shutil
+    import tempfile
+    import json as _json
+    groups = [dict(N=12, Retries=2, UseBackups=True, BatchSize=0, MinTasks=10),
+              dict(N=12, Retries=1, UseBackups=True, BatchSize=5, MinTasks=10),
+              dict(N=5, Retries=2, UseBackups=False, BatchSize=2, MinTasks=10)]
+    per = 25 if chk.tier == "quick" else 300
+    summary = []
+    for g in groups:
+        traces, scripts = [], []
+        for sc in gen_scripts(rng, per * 6):
+            if len(traces) >= per:
+                break
+            sc.n, sc.retries, sc.use_backups = g["N"], g["Retries"], g["UseBackups"]
+            sc.batch_size = g["BatchSize"] or None
+            for d in (sc.dur, sc.fails, sc.bdur, sc.bfails):
+                for i in range(1, sc.n + 1):
+                    d.setdefault(i, 1.0 if d in (sc.dur, sc.bdur) else 0)
+            sc.fails = {i: min(v, sc.retries + 1) for i, v in sc.fails.items()}
+            res = vloop.run_script(sc)
+            if res["outcome"] not in ("done", "raised"):
+                continue
+            traces.append(to_mechanism_trace(sc, res))
+            scripts.append(sc)
+        d = tempfile.mkdtemp(prefix="mut-")
+        try:
+            tf = os.path.join(d, "t.json")
+            _json.dump(traces, open(tf, "w"))
+            consts = dict(g, FixStartTimes=True, FixTwins=True)
+            r = run_tlc("MapUnorderedTrace", cfg=dict(init="TInit", next_="TNext", constants=consts,
+                                                      invariants=INV + ["Explained"], deadlock=False),
+                        workers=1, timeout=1800, env={"TRACE_FILE": tf})
+            chk.add_tlc(f"MapUnorderedTrace/N{g['N']}R{g['Retries']}B{g['BatchSize']}", r)
+            ok = {int(m.group(1)) for m in re.finditer(r'<<"VERDICT", (\d+), "ok", \d+>>', r.out)}
+            unexplained = [k + 1 for k in range(len(traces)) if (k + 1) not in ok]
+            summary.append(dict(config=g, traces=len(traces), explained=len(ok), unexplained=len(unexplained)))
+            chk.traces += len(ok)
+            for k in unexplained[:3]:
+                chk.drift.append(dict(note="execution of async_map_unordered not explained by MapUnordered.tla (mechanism drift)",
+                                      config=g, script=scripts[k - 1].to_json()))
+        finally:
+            shutil.rmtree(d, ignore_errors=True)
+    chk.extra["mechanism_trace_validation"] = summary
